@@ -113,7 +113,8 @@ inductive WOp (R W D : Type) where
 /-- API calls -/
 inductive Call (R W D : Type) where
   | beginSession (sid : Nat)
-  | beginSessionOv (sid : Nat)            -- on live overlays: `prev_root` comes from the overlay, M is not taken
+  | beginSessionOv (sid : Nat)            -- on live overlays: `prev_root` comes from the overlay; since the repair of F23 the
+                                          -- committed root is read under M (compared with the base of the chain)
   | endSession (sid : Nat)                -- drop / `finish`
   | sessRead (sid : Nat)
   | nomtRead (sid : Nat)                  -- `Nomt::read`: a temporary read guard
@@ -132,7 +133,7 @@ variable {R W D : Type}
 
 def progOf : Call R W D → List (Instr R W D)
   | .beginSession sid => [.aRead sid, .mLock, .sessRoot sid, .mUnlock, .ret .done]
-  | .beginSessionOv sid => [.aRead sid, .ret .done]
+  | .beginSessionOv sid => [.aRead sid, .mLock, .readRoot, .mUnlock, .ret .done]
   | .endSession sid => [.aReadUnlock sid, .ret .done]
   | .sessRead sid => [.sessRead sid, .ret .done]
   | .nomtRead sid => [.aRead sid, .sessRead sid, .aReadUnlock sid, .ret .done]
